@@ -301,7 +301,7 @@ def _history(ctx, cfg, length, idx):
     rng = ctx.rng
     run = Run(ctx, *cfg)
     if not run.ok:
-        ctx.violation("cannot-establish-communication", {"config": run.cfg, "comm": run.rig.comm_state})
+        ctx.unsure("precondition failed: the handler did not reach COMMUNICATING with a cooperative peer (C07/C20 judge that)")
         run.rig.shutdown()
         return
     for _ in range(length):
